@@ -113,8 +113,8 @@ def _fz_token(v):
 
 
 class SolveEnv:
-    def __init__(self, repo):
-        self.w = make_world(repo)
+    def __init__(self, repo, overrides=None):
+        self.w = make_world(repo, overrides=overrides)
         self.m = self.w.module(SOLVE)
         g = self.w.get
         self.Params = g("jinns.parameters._params", "Params")
